@@ -23,6 +23,9 @@ pub enum DKind {
     MisdirectRead(u16),
     /// a non-system rule emits an instance-level op
     InstanceOp,
+    /// one WRITE entry is omitted and the executor first replaces the delta it was handed by a
+    /// fresh one (so the ops it emits do not sit where a position-based check expects them)
+    DeltaSwap(u16),
 }
 
 #[derive(Clone, Debug, Serialize, Deserialize)]
@@ -44,6 +47,7 @@ fn vcase() -> impl Strategy<Value = VCase> {
             1 => (0u8..4).prop_map(DKind::ForeignWrite),
             3 => any::<u16>().prop_map(DKind::MisdirectRead),
             1 => Just(DKind::InstanceOp),
+            2 => any::<u16>().prop_map(DKind::DeltaSwap),
         ],
         0u8..4,
         1u8..5,
@@ -185,6 +189,17 @@ fn check_violation(_ctx: &Ctx, case: &VCase, probe: &mut Probe) -> Check {
             }
             e
         }
+        DKind::DeltaSwap(p) => {
+            let es: Vec<Expect> = entries(&v.prog.fp).into_iter().filter(|e| matches!(e, Expect::NodeWrite(_) | Expect::EdgeWrite(_) | Expect::AttWrite(_))).collect();
+            if es.is_empty() {
+                probe.class("violator-writes-nothing");
+                return Ok(());
+            }
+            let e = es[vkit::pick_idx(*p, es.len())].clone();
+            remove_entry(&mut v.prog.fp, &e);
+            v.prog.instrs.insert(0, Instr::SwapDelta);
+            e
+        }
         DKind::ForeignWrite(w) => {
             let fw = if *w == v.w { (*w + 1) % 4 } else { *w };
             v.prog.instrs.push(Instr::ForeignUpsertNode { w: fw, n: 0, ty: 0 });
@@ -268,6 +283,10 @@ fn check_violation(_ctx: &Ctx, case: &VCase, probe: &mut Probe) -> Check {
                 // the guard refuses a read set that names another instance outright (an
                 // assertion when the guard is built): the tick fails before anything runs
                 probe.class("misdirected-declaration-refused-at-guard-construction");
+            }
+            Err(RunErr::Panic(_)) if matches!(case.kind, DKind::DeltaSwap(_)) => {
+                // a delta left shorter than it was found is refused outright: the tick fails
+                probe.class("delta-swap-refused-by-a-plain-panic");
             }
             Err(RunErr::Panic(msg)) => {
                 vfail!("C14/violation-reported-as-plain-panic", "expected a FootprintViolation payload for {:?}, got panic: {msg}", expect);
